@@ -9,7 +9,10 @@ Correspondence of Model/Framing.v + Model/RecvBuffer.v + Model/SendChunk.v with 
   precv  scripted peer -> real client / real server: the byte stream re-cut into DATA frames
          (zero-length, padded, zero-length padded) and into TCP read chunks; the frames seen by
          Buffer.add are recorded and given to the model
-  link   real client <-> real server over harness.wire.Link with a PRNG cutter, both directions
+  link   real client <-> real server over harness.wire.Link with a PRNG cutter, both directions, several
+         concurrent calls on one connection, transport back-pressure (pause_writing / resume_writing)
+precv and link consume by recv_message loops or by `async for`, with the raw-bytes codec or a codec whose
+empty message decodes to a falsy value;
 and the direct oracle: received == sent, in order, then end-of-stream; an error iff truncated.
 """
 import asyncio
@@ -1232,7 +1235,12 @@ def run(ctx):
                 'max-frame {16384,16385,2^24-1}, PRNG WINDOW_UPDATE / SETTINGS script), precv (scripted peer '
                 '-> client/server with receive windows from the same set, PRNG DATA frames incl. zero-length '
                 'and padded, PRNG socket reads incl. 1-byte, truncation), link (real client <-> real server, '
-                'PRNG re-cut of every write, both directions, delays); distinct = distinct '
+                'PRNG re-cut of every write, both directions, delays, 1-3 concurrent calls on one connection, '
+                'transport back-pressure pause_writing/resume_writing before the sends or at PRNG moments); '
+                'consumers are recv_message loops or `async for`; codec raw bytes or a list codec (empty message '
+                'decodes to a falsy value); psend peers also advertise stream windows 0/1000/20000, re-open them '
+                'by SETTINGS alone or combined with other settings, and after every peer action the sender must '
+                'have used up all credit granted; distinct = distinct '
                 '(kind, configuration, sizes, op/frame sequence)')
     corpus = [undo_json(c) for c in ctx.corpus()]
     dispatch(ctx, res, corpus)
